@@ -3,7 +3,6 @@
 package main
 
 import (
-	"encoding/json"
 	"fmt"
 
 	"github.com/tdakkota/docker-logql/internal/logql"
@@ -329,7 +328,7 @@ func c01Run(r *vkit.Run) {
 
 func c01Replay(r *vkit.Run, v vkit.Violation) *vkit.Violation {
 	var in c01Input
-	if err := json.Unmarshal(v.Input, &in); err != nil {
+	if err := vkit.DecodeInput(v, &in); err != nil {
 		r.HarnessError("bad input: %v", err)
 	}
 	return vkit.ReplayOne(r, func() { c01Check(r, in, true) })
